@@ -256,7 +256,7 @@ fn check_header(hd: &HeaderDesc, out: &mut CaseOut) -> Option<HeaderCtx> {
     Some(HeaderCtx { header, read_header, dict, file_prefix: bytes })
 }
 
-fn check_record(hd: &HeaderDesc, hc: &HeaderCtx, writer: &mut bcf::io::Writer<Vec<u8>>, rd: &RecDesc, out: &mut CaseOut) -> Option<Accepted> {
+fn check_record(hd: &HeaderDesc, hc: &HeaderCtx, writer: &mut bcf::io::Writer<Vec<u8>>, rd: &RecDesc, gt_string: bool, out: &mut CaseOut) -> Option<Accepted> {
     let ff = hd.fileformat;
     out.count("records", 1);
     // BCF has no notion of dropped trailing values: every row carries every key
@@ -265,7 +265,33 @@ fn check_record(hd: &HeaderDesc, hc: &HeaderCtx, writer: &mut bcf::io::Writer<Ve
         row.resize(padded.format.len(), None);
     }
     let rd = &padded;
-    let buf = to_record_buf(rd);
+    let mut buf = to_record_buf(rd);
+    // what the renderings are compared against (genotypes as Value::Genotype)
+    let render_buf = buf.clone();
+    if gt_string {
+        // the same genotypes handed over as GT *strings* (sample Value::String), which the encoder also takes
+        use vcf::variant::record_buf::samples::{Keys, sample::Value as SV};
+        let (keys, mut values): (Keys, Vec<Vec<Option<SV>>>) = buf.samples().clone().into();
+        if let Some(gi) = rd.format_index("GT") {
+            for (row, drow) in values.iter_mut().zip(&rd.samples) {
+                if let Some(Some(Val::Gt(g))) = drow.get(gi) {
+                    let mut t = String::new();
+                    for (i, a) in g.iter().enumerate() {
+                        if i > 0 {
+                            t.push(if a.phased { '|' } else { '/' });
+                        }
+                        match a.allele {
+                            Some(n) => t.push_str(&n.to_string()),
+                            None => t.push('.'),
+                        }
+                    }
+                    row[gi] = Some(SV::String(t));
+                }
+            }
+        }
+        *buf.samples_mut() = vcf::variant::record_buf::Samples::new(keys, values);
+        out.count("records_with_gt_as_string", 1);
+    }
     let before = writer.get_ref().len();
     let res = guard::catch(|| writer.write_variant_record(&hc.header, &buf));
     let text = to_vcf_line(rd, hd);
@@ -277,6 +303,9 @@ fn check_record(hd: &HeaderDesc, hc: &HeaderCtx, writer: &mut bcf::io::Writer<Ve
         }
         Ok(Err(e)) => {
             out.count(&format!("rejected[{}]", io_err_class(&e)), 1);
+            if max_gt_allele(rd) >= 63 {
+                out.count("gt_allele_index_unrepresentable:rejected", 1);
+            }
             if writer.get_ref().len() != before {
                 out.violation("rejected-record-left-bytes", format!("the writer returned {e} after writing {} bytes", writer.get_ref().len() - before));
                 writer.get_mut().truncate(before);
@@ -286,6 +315,9 @@ fn check_record(hd: &HeaderDesc, hc: &HeaderCtx, writer: &mut bcf::io::Writer<Ve
         Ok(Ok(())) => {}
     }
     out.count("records_accepted", 1);
+    if max_gt_allele(rd) >= 63 {
+        out.count("gt_allele_index_unrepresentable:accepted", 1);
+    }
     let bytes = writer.get_ref()[before..].to_vec();
     let ctxs = format!("record (as VCF): {}\nfileformat {}.{}; BCF bytes: {}", lossy(&text), ff.0, ff.1, hex(&bytes[..bytes.len().min(160)]));
     let canon = |r: RecDesc| -> RecDesc { canon_rec(r, ff) };
@@ -306,6 +338,7 @@ fn check_record(hd: &HeaderDesc, hc: &HeaderCtx, writer: &mut bcf::io::Writer<Ve
     }
     // independent decode
     let mut raw_broken = false;
+    let mut raw_rlen: Option<i32> = None;
     match raw::decode(&bytes[8..8 + ls], &bytes[8 + ls..], hd, &hc.dict) {
         Err(e) => {
             raw_broken = true;
@@ -313,7 +346,8 @@ fn check_record(hd: &HeaderDesc, hc: &HeaderCtx, writer: &mut bcf::io::Writer<Ve
             if in_indiv {
                 // name the field whose bytes do not line up with the layout the description demands
                 let shape = blame_shape(&bytes[8 + ls..], &exp, hd, &hc.dict);
-                out.violation(format!("raw-malformed-per-sample-block:{shape}"), format!("independent BCF reader: {} ({})\n{ctxs}", e.detail, e.class));
+                let sig = if shape == "layout-as-described" { format!("raw-malformed:{}", e.class) } else { format!("raw-malformed-per-sample-block:{shape}") };
+                out.violation(sig, format!("independent BCF reader: {} ({})\n{ctxs}", e.detail, e.class));
             } else {
                 out.violation(format!("raw-malformed:{}", e.class), format!("independent BCF reader: {}\n{ctxs}", e.detail));
             }
@@ -324,6 +358,7 @@ fn check_record(hd: &HeaderDesc, hc: &HeaderCtx, writer: &mut bcf::io::Writer<Ve
                 out.violation(format!("raw-ne-desc:{}:{}", d.column, d.class), format!("independent BCF reader, {} {}: {}\n{ctxs}", d.column, d.key, d.detail));
                 bad.insert(colkey(&d));
             }
+            raw_rlen = Some(info.rlen);
             if info.n_sample != hd.samples.len() {
                 out.violation("raw-ne-desc:n_sample", format!("n_sample {} vs {} samples in the header\n{ctxs}", info.n_sample, hd.samples.len()));
             }
@@ -398,7 +433,7 @@ fn check_record(hd: &HeaderDesc, hc: &HeaderCtx, writer: &mut bcf::io::Writer<Ve
                     w.write_variant_record(&hc.header, b).map(|_| w.into_inner())
                 })
             };
-            match (render(&buf), render(eager_buf.as_ref().unwrap())) {
+            match (render(&render_buf), render(eager_buf.as_ref().unwrap())) {
                 (Ok(Ok(a)), Ok(Ok(b))) => {
                     out.count("vcf_renderings_compared", 1);
                     if a != b {
@@ -467,6 +502,57 @@ fn check_record(hd: &HeaderDesc, hc: &HeaderCtx, writer: &mut bcf::io::Writer<Ve
                 }
             }
         }
+    }
+    // the span: rlen is what BCF readers and indexers use as the record's extent
+    if let Ok((s0, e0)) = genvcf::span(&exp, ff) {
+        let want = e0 - s0 + 1;
+        let driver = span_driver(&exp, ff);
+        let fcls = if ff < (4, 5) { "before-4.5" } else { "from-4.5" };
+        out.count(&format!("span_checked[{driver}|{}]", if exp.info.is_empty() { "info-empty" } else { "info-nonempty" }), 1);
+        let mut rlen_bad = false;
+        if let Some(rl) = raw_rlen {
+            if rl as i64 != want as i64 {
+                rlen_bad = true;
+                out.violation(format!("rlen-ne-span:raw-rlen:{driver}:{fcls}"), format!("rlen {rl} written, the description spans {s0}..={e0} ({want} bases; decided by {driver})\n{ctxs}"));
+            }
+        }
+        if !raw_broken {
+            let lazy = guard::catch(|| -> std::io::Result<(u64, u64, u64)> {
+                let mut r = bcf::io::Reader::from(&bytes[..]);
+                let mut rec = bcf::Record::default();
+                r.read_record(&mut rec)?;
+                let end = usize::from(rec.end()?) as u64;
+                let tend = usize::from(vcf::variant::Record::variant_end(&rec, &hc.read_header)?) as u64;
+                let tspan = vcf::variant::Record::variant_span(&rec, &hc.read_header)? as u64;
+                Ok((end, tend, tspan))
+            });
+            match lazy {
+                Err(p) => out.violation(format!("panic:{}", p.sig), format!("end()/variant_end/variant_span of the lazy bcf::Record panicked: {}\n{ctxs}", p.message)),
+                Ok(Err(e)) => out.violation(format!("rlen-ne-span:lazy-error:{}:{driver}:{fcls}", io_err_class(&e)), format!("{e:?}\n{ctxs}")),
+                Ok(Ok((end, tend, tspan))) => {
+                    if end != e0 && !rlen_bad {
+                        out.violation(format!("rlen-ne-span:lazy-end:{driver}:{fcls}"), format!("bcf::Record::end() = {end}, the description ends at {e0}\n{ctxs}"));
+                    }
+                    if tend != e0 || tspan != want {
+                        out.violation(format!("rlen-ne-span:lazy-variant_span:{driver}:{fcls}"), format!("lazy variant_end/variant_span = {tend}/{tspan}, the description gives {e0}/{want}\n{ctxs}"));
+                    }
+                }
+            }
+            if let Some(b) = &eager_buf {
+                let eager = guard::catch(|| -> std::io::Result<(u64, u64)> { Ok((usize::from(vcf::variant::Record::variant_end(b, &hc.read_header)?) as u64, vcf::variant::Record::variant_span(b, &hc.read_header)? as u64)) });
+                match eager {
+                    Err(p) => out.violation(format!("panic:{}", p.sig), format!("variant_end/variant_span of the eager record panicked: {}\n{ctxs}", p.message)),
+                    Ok(Err(e)) => out.violation(format!("rlen-ne-span:eager-error:{}:{driver}:{fcls}", io_err_class(&e)), format!("{e:?}\n{ctxs}")),
+                    Ok(Ok((tend, tspan))) => {
+                        if tend != e0 || tspan != want {
+                            out.violation(format!("rlen-ne-span:eager-variant_span:{driver}:{fcls}"), format!("eager variant_end/variant_span = {tend}/{tspan}, the description gives {e0}/{want}\n{ctxs}"));
+                        }
+                    }
+                }
+            }
+        }
+    } else {
+        out.count("span_outside_the_rule", 1);
     }
     for (k, _) in &rd.info {
         if let Some(d) = hd.info(k) {
@@ -770,6 +856,236 @@ fn gt_coverage(g: &[GtAllele], ff: (u32, u32), out: &mut CaseOut) {
     }
 }
 
+/// Largest allele index any genotype of the record names.
+fn max_gt_allele(r: &RecDesc) -> u32 {
+    r.samples.iter().flatten().flatten().filter_map(|v| if let Val::Gt(g) = v { g.iter().filter_map(|a| a.allele).max() } else { None }).max().unwrap_or(0)
+}
+
+/// Which term of the span rule decides the end of a record (ties go to REF).
+fn span_driver(r: &RecDesc, ff: (u32, u32)) -> &'static str {
+    let reflen = r.reference.len() as i64;
+    if ff < (4, 5) {
+        return if matches!(r.info_get("END"), Some(Some(_))) { "END" } else { "REF" };
+    }
+    let svlen = match r.info_get("SVLEN") {
+        Some(Some(Val::Ints(a))) => a.iter().flatten().map(|v| *v as i64).max().unwrap_or(0),
+        _ => 0,
+    };
+    let len = r.format_index("LEN").map(|fi| r.samples.iter().filter_map(|row| if let Some(Some(Val::Int(n))) = row.get(fi) { Some(*n as i64) } else { None }).max().unwrap_or(0)).unwrap_or(0);
+    let m = reflen.max(svlen).max(len);
+    if m == reflen { "REF" } else if m == len { "LEN" } else { "SVLEN" }
+}
+
+/// VCF 4.5 records whose end is decided by FORMAT LEN: INFO empty / non-empty x LEN absent / missing in
+/// every sample / present in some / larger / smaller than REF x `<*>` alone and in mixed ALT lists.
+/// Needs a 4.5 header that declares FORMAT LEN (and GT); `at` supplies CHROM and POS.
+fn len_matrix(h: &HeaderDesc, at: &RecDesc) -> Vec<RecDesc> {
+    let mut out = Vec::new();
+    if h.fileformat < (4, 5) || h.format("LEN").is_none() || h.format("GT").is_none() || h.samples.is_empty() {
+        return out;
+    }
+    let ns = h.samples.len();
+    let info_key = h.infos.iter().find(|d| d.ty == Ty::Integer && d.num.is_scalar() && d.id != "END").map(|d| d.id.clone());
+    let gt = || Some(Val::Gt(vec![GtAllele { allele: Some(0), phased: false }, GtAllele { allele: Some(0), phased: false }]));
+    for (reference, alts) in [("A", vec!["<*>"]), ("ACGTACGT", vec!["<*>"]), ("A", vec!["C", "<*>"]), ("ACGTACGT", vec!["<*>", "AC", "<NON_REF>"])] {
+        for info_nonempty in [false, true] {
+            for pattern in 0..5u32 {
+                let mut r = RecDesc { chrom: at.chrom.clone(), pos: at.pos.clamp(1, 1_000_000), ids: vec![], reference: reference.into(), alts: alts.iter().map(|s| s.to_string()).collect(), qual: None, filters: vec![], info: vec![], format: vec!["GT".into()], samples: (0..ns).map(|_| vec![gt()]).collect() };
+                if info_nonempty {
+                    match &info_key {
+                        Some(k) => r.info.push((k.clone(), Some(Val::Int(7)))),
+                        None => continue,
+                    }
+                }
+                match pattern {
+                    0 => {} // no LEN key
+                    p => {
+                        r.format.push("LEN".into());
+                        for (si, row) in r.samples.iter_mut().enumerate() {
+                            row.push(match p {
+                                1 => None,
+                                2 => if si == 0 { Some(Val::Int(50)) } else { None },
+                                3 => Some(Val::Int(120 + 70 * si as i32)),
+                                _ => Some(Val::Int(3)),
+                            });
+                        }
+                    }
+                }
+                out.push(r);
+            }
+        }
+    }
+    out
+}
+
+/// Distinct short allele strings (never equal to REF `A`).
+fn short_alleles(n: usize) -> Vec<String> {
+    let mut v = Vec::new();
+    let mut k = 0usize;
+    while v.len() < n {
+        k += 1;
+        let mut x = k;
+        let mut s = String::new();
+        while x > 0 {
+            s.push(['A', 'C', 'G', 'T'][x % 4]);
+            x /= 4;
+        }
+        if s != "A" && !v.contains(&s) {
+            v.push(s);
+        }
+    }
+    v
+}
+
+/// Records with many ALT alleles whose genotypes reference the allele indices around the int8
+/// genotype code boundary ((allele + 1) << 1 must stay below 128) in every ploidy / position /
+/// phasing; returns the records and the indices of those to hand over as a GT *string*.
+fn many_alt_case(minor: u32) -> (HeaderDesc, Vec<RecDesc>, Vec<usize>) {
+    let h = HeaderDesc {
+        fileformat: (4, minor),
+        infos: vec![fdef("AC", Num::A, Ty::Integer), fdef("gG", Num::G, Ty::Integer)],
+        filters: vec![],
+        formats: vec![fdef("GT", Num::Count(1), Ty::String), fdef("AD", Num::R, Ty::Integer), fdef("PL", Num::G, Ty::Integer)],
+        alts: vec![],
+        contigs: vec![ContigDef { id: "1".into(), length: None, md5: None, url: None, idx: None, extra: vec![] }],
+        others: vec![],
+        samples: vec!["S1".into(), "S2".into()],
+    };
+    let mut recs = Vec::new();
+    let mut strs = Vec::new();
+    for n_alleles in [62usize, 63, 64, 65, 127, 128, 200] {
+        let alts = short_alleles(n_alleles - 1);
+        let mut first = true;
+        for t in [61usize, 62, 63, 64, 126, 127, 128, 199] {
+            if t >= n_alleles {
+                continue;
+            }
+            for ploidy in 1..=4usize {
+                for p in 0..ploidy {
+                    for phased in [false, true] {
+                        let mut g: Vec<GtAllele> = (0..ploidy).map(|i| GtAllele { allele: Some(if i == p { t as u32 } else { (i % 2) as u32 }), phased: i > 0 && phased }).collect();
+                        g[0].phased = if minor >= 4 { false } else { genvcf::implied_first_phasing(&g) };
+                        let other = vec![GtAllele { allele: Some(0), phased: false }, GtAllele { allele: Some(1), phased: false }];
+                        let mut r = RecDesc { chrom: "1".into(), pos: 1000 + recs.len() as u64, ids: vec![], reference: "A".into(), alts: alts.clone(), qual: None, filters: vec![], info: vec![], format: vec!["GT".into()], samples: vec![vec![Some(Val::Gt(g.clone()))], vec![Some(Val::Gt(other))]] };
+                        if first {
+                            // Number=A / R / G vectors as long as the allele list demands (diploid G)
+                            first = false;
+                            let n = n_alleles;
+                            r.info = vec![("AC".into(), Some(Val::Ints((0..n - 1).map(|i| Some(i as i32)).collect()))), ("gG".into(), Some(Val::Ints((0..n * (n + 1) / 2).map(|i| Some(i as i32 % 300)).collect())))];
+                            r.format = vec!["GT".into(), "AD".into(), "PL".into()];
+                            for row in r.samples.iter_mut() {
+                                row.push(Some(Val::Ints((0..n).map(|i| Some(i as i32)).collect())));
+                                row.push(Some(Val::Ints((0..n * (n + 1) / 2).map(|i| Some((i % 256) as i32)).collect())));
+                            }
+                        }
+                        // the string form has no way to say "first allele phased": use it where it is unphased
+                        if !g[0].phased && (p + ploidy + t) % 2 == 0 {
+                            strs.push(recs.len());
+                        }
+                        recs.push(r);
+                    }
+                }
+            }
+        }
+    }
+    (h, recs, strs)
+}
+
+/// Typed vector / string lengths around the descriptor's 4-bit length field (14, 15, 16) and around
+/// the width of the overflow length itself (127/128, 255/256), INFO and FORMAT, every type.
+fn vector_length_case(minor: u32) -> (HeaderDesc, Vec<RecDesc>) {
+    let h = HeaderDesc {
+        fileformat: (4, minor),
+        infos: vec![fdef("iV", Num::Dot, Ty::Integer), fdef("fV", Num::Dot, Ty::Float), fdef("sV", Num::Dot, Ty::String), fdef("cV", Num::Dot, Ty::Character), fdef("s1", Num::Count(1), Ty::String)],
+        filters: vec![],
+        formats: vec![fdef("GT", Num::Count(1), Ty::String), fdef("iV", Num::Dot, Ty::Integer), fdef("fV", Num::Dot, Ty::Float), fdef("sV", Num::Dot, Ty::String), fdef("cV", Num::Dot, Ty::Character), fdef("s1", Num::Count(1), Ty::String)],
+        alts: vec![],
+        contigs: vec![ContigDef { id: "1".into(), length: None, md5: None, url: None, idx: None, extra: vec![] }],
+        others: vec![],
+        samples: vec!["S1".into(), "S2".into()],
+    };
+    let mut recs = Vec::new();
+    let gt = || Some(Val::Gt(vec![GtAllele { allele: Some(0), phased: false }, GtAllele { allele: Some(1), phased: false }]));
+    for len in [1usize, 2, 13, 14, 15, 16, 17, 126, 127, 128, 129, 255, 256, 257] {
+        let vals: Vec<(&str, Val, Val)> = vec![
+            ("iV", Val::Ints((0..len).map(|i| Some(i as i32 % 100)).collect()), Val::Ints(vec![Some(1)])),
+            ("fV", Val::Floats((0..len).map(|i| Some((i as f32 / 2.0).to_bits())).collect()), Val::Floats(vec![Some(0)])),
+            ("cV", Val::Chars((0..len).map(|i| Some((b'a' + (i % 26) as u8) as char)).collect()), Val::Chars(vec![Some('z')])),
+            // byte length of the joined string = len: elements of one letter, (len + 1) / 2 of them
+            ("sV", Val::Strs((0..len.div_ceil(2)).map(|i| Some(if len % 2 == 0 && i == 0 { "xy".to_string() } else { "x".to_string() })).collect()), Val::Strs(vec![Some("q".into())])),
+            ("s1", Val::Str("s".repeat(len)), Val::Str("t".into())),
+        ];
+        for (k, long, short) in vals {
+            let base = RecDesc { chrom: "1".into(), pos: 100 + recs.len() as u64, ids: vec![], reference: "A".into(), alts: vec!["C".into()], qual: None, filters: vec![], info: vec![], format: vec!["GT".into()], samples: vec![vec![gt()], vec![gt()]] };
+            let mut r = base.clone();
+            r.info = vec![(k.to_string(), Some(long.clone()))];
+            recs.push(r);
+            let mut r = base.clone();
+            r.format.push(k.to_string());
+            r.samples[0].push(Some(long.clone()));
+            r.samples[1].push(Some(short.clone()));
+            recs.push(r);
+            let mut r = base;
+            r.format.push(k.to_string());
+            r.samples[0].push(Some(short));
+            r.samples[1].push(Some(long));
+            recs.push(r);
+        }
+        // REF / ALT / ID strings of that length
+        let mut r = RecDesc { chrom: "1".into(), pos: 100 + recs.len() as u64, ids: vec!["i".repeat(len)], reference: "A".repeat(len), alts: vec!["C".repeat(len)], qual: None, filters: vec![], info: vec![], format: vec!["GT".into()], samples: vec![vec![gt()], vec![gt()]] };
+        recs.push(r.clone());
+        r.ids.clear();
+        recs.push(r);
+    }
+    (h, recs)
+}
+
+/// A header whose dictionaries are `n_info` INFO + 6 FILTER + 8 FORMAT entries (order of appearance)
+/// and `n_contig` contigs, and records that use the entries around the int8/int16 (127/128) and
+/// int16/int32 (32767/32768) index boundaries as INFO keys, FILTER vectors, FORMAT keys and CHROM.
+fn big_dictionary_case(minor: u32, n_info: usize, n_contig: usize) -> (HeaderDesc, Vec<RecDesc>) {
+    let mut h = HeaderDesc { fileformat: (4, minor), infos: vec![], filters: vec![], formats: vec![fdef("GT", Num::Count(1), Ty::String)], alts: vec![], contigs: vec![], others: vec![], samples: vec!["S1".into()] };
+    for i in 0..n_info {
+        h.infos.push(FieldDef { id: format!("k{i}"), num: if i % 2 == 0 { Num::Count(1) } else { Num::Count(0) }, ty: if i % 2 == 0 { Ty::Integer } else { Ty::Flag }, desc: "d".into(), idx: None, extra: vec![] });
+    }
+    for i in 0..6 {
+        h.filters.push(FilterDef { id: format!("f{i}"), desc: "d".into(), idx: None, extra: vec![] });
+    }
+    for i in 0..7 {
+        h.formats.push(fdef(&format!("x{i}"), Num::Count(1), Ty::Integer));
+    }
+    for i in 0..n_contig {
+        h.contigs.push(ContigDef { id: format!("c{i}"), length: None, md5: None, url: None, idx: None, extra: vec![] });
+    }
+    let gt = || Some(Val::Gt(vec![GtAllele { allele: Some(0), phased: false }, GtAllele { allele: Some(1), phased: false }]));
+    let mut recs = Vec::new();
+    let info_val = |i: usize| -> (String, Option<Val>) { (format!("k{i}"), Some(if i % 2 == 0 { Val::Int(i as i32) } else { Val::Flag })) };
+    // INFO keys: the last ones, singly and together with low ones
+    for back in 0..8usize.min(n_info) {
+        let i = n_info - 1 - back;
+        let mut r = RecDesc { chrom: format!("c{}", (n_contig - 1).saturating_sub(back * 37) % n_contig), pos: 10 + recs.len() as u64, ids: vec![], reference: "A".into(), alts: vec!["C".into()], qual: None, filters: vec![], info: vec![info_val(i)], format: vec!["GT".into()], samples: vec![vec![gt()]] };
+        recs.push(r.clone());
+        r.info = vec![info_val(0), info_val(i), info_val(1)];
+        recs.push(r);
+    }
+    for i in [125usize, 126, 127, 128, 129, 254, 255, 256, 32765, 32766, 32767, 32768] {
+        if i < n_info {
+            recs.push(RecDesc { chrom: format!("c{}", i % n_contig), pos: 10 + recs.len() as u64, ids: vec![], reference: "A".into(), alts: vec![], qual: None, filters: vec![], info: vec![info_val(i)], format: vec!["GT".into()], samples: vec![vec![gt()]] });
+        }
+    }
+    // FILTER vectors (dictionary positions n_info+1 ..) alone, PASS + high, all six
+    for set in [vec![0usize], vec![5], vec![0, 5], vec![1, 2, 3], vec![0, 1, 2, 3, 4, 5]] {
+        recs.push(RecDesc { chrom: "c0".into(), pos: 10 + recs.len() as u64, ids: vec![], reference: "A".into(), alts: vec![], qual: None, filters: set.iter().map(|i| format!("f{i}")).collect(), info: vec![], format: vec!["GT".into(), "x6".into(), "x0".into()], samples: vec![vec![gt(), Some(Val::Int(1)), Some(Val::Int(2))]] });
+    }
+    // every contig around the boundaries
+    for i in [0usize, 126, 127, 128, 129, 255, 256, 299] {
+        if i < n_contig {
+            recs.push(RecDesc { chrom: format!("c{i}"), pos: 5, ids: vec![], reference: "A".into(), alts: vec![], qual: None, filters: vec!["PASS".into()], info: vec![], format: vec!["GT".into()], samples: vec![vec![gt()]] });
+        }
+    }
+    (h, recs)
+}
+
 fn fdef(id: &str, num: Num, ty: Ty) -> FieldDef {
     FieldDef { id: id.into(), num, ty, desc: format!("{id} field"), idx: None, extra: vec![] }
 }
@@ -859,6 +1175,14 @@ fn corpus() -> Vec<(HeaderDesc, Vec<RecDesc>)> {
         recs.push(gen_rich_record(&mut rng, &h, &ro));
     }
     let mut out = vec![(h.clone(), recs)];
+    // VCF 4.5 records whose end is decided by FORMAT LEN
+    {
+        let mut h45 = h.clone();
+        h45.fileformat = (4, 5);
+        h45.formats.push(fdef("LEN", Num::Count(1), Ty::Integer));
+        let m = len_matrix(&h45, &base_for_gt);
+        out.push((h45, m));
+    }
     // ploidy 3 / 4 genotypes with every order of `/` and `|` separators under every fileformat
     for minor in 2..=5u32 {
         let mut hv = h.clone();
@@ -905,7 +1229,7 @@ fn run_case(c: &Case) -> CaseOut {
     let mut out = CaseOut::new();
     out.evaluations = 0;
     let mut fps: BTreeSet<u64> = BTreeSet::new();
-    let mut do_records = |hd: &HeaderDesc, recs: &[RecDesc], out: &mut CaseOut| {
+    let mut do_records = |hd: &HeaderDesc, recs: &[RecDesc], gt_strings: &[usize], out: &mut CaseOut| {
         out.evaluations += 1;
         let Some(hc) = check_header(hd, out) else { return };
         let mut w = bcf::io::Writer::from(Vec::new());
@@ -913,9 +1237,9 @@ fn run_case(c: &Case) -> CaseOut {
             return;
         }
         let mut accepted = Vec::new();
-        for rd in recs {
+        for (ri, rd) in recs.iter().enumerate() {
             out.evaluations += 1;
-            if let Some(b) = check_record(hd, &hc, &mut w, rd, out) {
+            if let Some(b) = check_record(hd, &hc, &mut w, rd, gt_strings.contains(&ri), out) {
                 accepted.push(b);
             }
             for f in features(rd, hd) {
@@ -929,13 +1253,18 @@ fn run_case(c: &Case) -> CaseOut {
     match c.kind {
         "corpus" => {
             for (hd, recs) in corpus() {
-                do_records(&hd, &recs, &mut out);
+                do_records(&hd, &recs, &[], &mut out);
             }
         }
         "records" => {
             let mut rng = Rng::new(c.seed, 0xC10, 1);
             let ho = HeaderOpts { fileformat: c.fileformat, max_samples: if c.seed % 9 == 0 { 30 } else { 6 }, idx: c.idx, model: Model::Bcf, extras: c.seed % 3 == 0, min_contig_len: None, v45_numbers: false };
-            let hd = gen_header(&mut rng, &ho);
+            let mut hd = gen_header(&mut rng, &ho);
+            if hd.fileformat >= (4, 5) && hd.format("LEN").is_none() && c.seed % 4 != 3 {
+                // most 4.5 cases declare FORMAT LEN (same dictionary slot rules as any FORMAT line)
+                let idx = hd.formats.iter().filter_map(|d| d.idx).max().map(|m| m.max(hd.infos.iter().filter_map(|d| d.idx).max().unwrap_or(0)).max(hd.filters.iter().filter_map(|d| d.idx).max().unwrap_or(0)) + 1);
+                hd.formats.push(FieldDef { id: "LEN".into(), num: Num::Count(1), ty: Ty::Integer, desc: "Length of <*> reference block".into(), idx: if hd.has_explicit_idx() { idx } else { None }, extra: vec![] });
+            }
             let ro = RecOpts { model: Model::Bcf, nan: true, invalid_ints: true, rare: 16 };
             let mut recs: Vec<RecDesc> = Vec::new();
             for i in 0..c.n {
@@ -950,6 +1279,17 @@ fn run_case(c: &Case) -> CaseOut {
                         recs.push(minimal_record(&hd, &at, [1u64, 3, 2, 3, 0][(i / 20 + i) % 5]));
                         continue;
                     }
+                    7 | 8 | 9 => {
+                        // VCF 4.5: records whose end is decided by FORMAT LEN (INFO empty and not)
+                        let at = gen_record(&mut rng, &hd, &ro);
+                        let m = len_matrix(&hd, &at);
+                        if !m.is_empty() {
+                            recs.push(rng.pick(&m).clone());
+                            continue;
+                        }
+                        recs.push(at);
+                        continue;
+                    }
                     _ => {}
                 }
                 let mut r = gen_record(&mut rng, &hd, &ro);
@@ -960,10 +1300,23 @@ fn run_case(c: &Case) -> CaseOut {
                 }
                 recs.push(r);
             }
-            do_records(&hd, &recs, &mut out);
+            do_records(&hd, &recs, &[], &mut out);
             if c.seed % 5 == 0 {
                 out.sample = Some(json!({"header_idx": format!("{:?}", c.idx), "first_record": lossy(&to_vcf_line(&recs[0], &hd))}));
             }
+        }
+        "many-alts" => {
+            let (hd, recs, strs) = many_alt_case(2 + (c.seed % 4) as u32);
+            do_records(&hd, &recs, &strs, &mut out);
+        }
+        "vector-lengths" => {
+            let (hd, recs) = vector_length_case(2 + (c.seed % 4) as u32);
+            do_records(&hd, &recs, &[], &mut out);
+        }
+        "big-dictionary" => {
+            let (hd, recs) = big_dictionary_case(2 + (c.seed % 4) as u32, c.n, 300);
+            out.count(&format!("dictionary_entries[{}]", if c.n >= 32768 { "32768+" } else if c.n >= 256 { "256+" } else { "128+" }), 1);
+            do_records(&hd, &recs, &[], &mut out);
         }
         k => panic!("bad case kind {k}"),
     }
@@ -973,6 +1326,18 @@ fn run_case(c: &Case) -> CaseOut {
 
 fn gen_cases(ctx: &Ctx) -> Vec<Case> {
     let mut cases = vec![Case { kind: "corpus", seed: 0, n: 0, fileformat: None, idx: IdxMode::None }];
+    // deterministic boundary cases (fileformat rotates with the seed)
+    for k in 0..2u64 {
+        cases.push(Case { kind: "many-alts", seed: ctx.seed + k, n: 0, fileformat: None, idx: IdxMode::None });
+        cases.push(Case { kind: "vector-lengths", seed: ctx.seed + k, n: 0, fileformat: None, idx: IdxMode::None });
+    }
+    let mut dict_sizes = vec![124usize, 130, 260];
+    if !ctx.quick() {
+        dict_sizes.push(32772);
+    }
+    for (k, n) in dict_sizes.into_iter().enumerate() {
+        cases.push(Case { kind: "big-dictionary", seed: ctx.seed + k as u64, n, fileformat: None, idx: IdxMode::None });
+    }
     let per = ctx.budget("per_case", 200, 250) as usize;
     let n = ctx.budget("cases", 100, 4000);
     for i in 0..n {
@@ -1015,6 +1380,16 @@ fn main() {
                 let k = format!("{k}[4.{minor}]");
                 rep.floor(&k, get(&k), 40);
             }
+        }
+        for k in ["span_checked[LEN|info-empty]", "span_checked[LEN|info-nonempty]", "span_checked[END|info-nonempty]", "span_checked[SVLEN|info-nonempty]", "span_checked[REF|info-empty]"] {
+            rep.floor(k, get(k), 20);
+        }
+        rep.floor("gt allele index >= 63 offered to the writer", get("gt_allele_index_unrepresentable:rejected") + get("gt_allele_index_unrepresentable:accepted"), 100);
+        rep.floor("records_with_gt_as_string", get("records_with_gt_as_string"), 100);
+        rep.floor("dictionary_entries[128+]", get("dictionary_entries[128+]"), 2);
+        rep.floor("dictionary_entries[256+]", get("dictionary_entries[256+]"), 1);
+        if ctx.tier == vcore::Tier::Thorough {
+            rep.floor("dictionary_entries[32768+]", get("dictionary_entries[32768+]"), 1);
         }
         rep.floor("adjacent_rich_then_minimal", get("adjacent_rich_then_minimal"), recs / 60);
         rep.floor("adjacent_minimal_then_rich", get("adjacent_minimal_then_rich"), recs / 60);
